@@ -231,6 +231,9 @@ impl RawRwLock {
         // Atomically downgrade state.
         self.state
             .fetch_add(ONE_READER - WRITER_BIT, Ordering::SeqCst);
+
+        // Trigger the "no writer" event.
+        self.no_writer.notify(1);
     }
 
     /// # Safety
